@@ -227,6 +227,12 @@ func isolationMatrix() []isoCell {
 	add("inline/object", oneFieldBundle(fld("inner", inlineObj())))
 	// a nested type that takes the name of its parent (by override here; a field called like its parent object does the same)
 	add("inline/object-named-as-parent", oneFieldBundle(fld("inner", inlineObj().with(func(t *jT) { t.InlineName = "Holder" }))))
+	// a described inline enum that follows other nested types of the same parent
+	add("inline/enum-after-nested-message", elemsBundle(objDecl("Holder",
+		fld("first", &jT{Kind: kObject, Inline: &jDecl{Kind: kObject, Fields: []*jF{fld("label", tScalar(kString))}}}),
+		fld("tags", tMap(tScalar(kString))),
+		&jF{Name: "mode", Desc: "How it runs", T: &jT{Kind: kEnum, Inline: &jDecl{Kind: kEnum, Options: []string{"FAST", "SLOW"}, OptDesc: map[string]string{"FAST": "Quick but rough", "SLOW": "Careful"}}}},
+		fld("second", &jT{Kind: kObject, Inline: &jDecl{Kind: kObject, Fields: []*jF{fld("level", &jT{Kind: kEnum, Inline: &jDecl{Kind: kEnum, Options: []string{"LOW", "HIGH"}, OptDesc: map[string]string{"LOW": "Not much", "HIGH": "A lot"}}})}}}))))
 	add("inline/object-named", oneFieldBundle(fld("inner", inlineObj().with(func(t *jT) { t.InlineName = "Custom" }))))
 	// (a description inside the field body belongs to the property: the merged scope resolves it there first)
 	add("inline/object-described", oneFieldBundle(&jF{Name: "inner", T: inlineObj(), Desc: "Inline description"}))
@@ -347,6 +353,25 @@ func isolationMatrix() []isoCell {
 	impOnly("method-request", &jElem{Service: &jService{Name: "Things", BasePath: "/iso/v1", Methods: []*jMethod{{Name: "PutThing", HTTPMethod: "POST", Path: "/things", Req: []*jF{fld("shared", sharedRef())}, HasRes: true, Res: []*jF{fld("ok", tScalar(kBool))}}}}})
 	impOnly("method-response-array", &jElem{Service: &jService{Name: "Things", BasePath: "/iso/v1", Methods: []*jMethod{{Name: "GetThing", HTTPMethod: "GET", Path: "/things", HasRes: true, Res: []*jF{fld("shareds", tArr(sharedRef()))}}}}})
 	impOnly("topic-message", &jElem{Topic: &jTopic{Name: "Things", Type: "publish", Messages: []*jTopicMsg{{Name: "SendThing", Fields: []*jF{fld("levels", tMap(levelRef()))}}}}})
+	// both packages declare a type of the same simple name; each reference must reach the package it names
+	for _, form := range []struct{ id, ref, enumRef string; imports []*jImport }{
+		{"full", "other.v1.Shared", "other.v1.Level", []*jImport{{Path: "other.v1"}}},
+		{"short", "other.Shared", "other.Level", []*jImport{{Path: "other.v1"}}},
+		{"alias", "oth.Shared", "oth.Level", []*jImport{{Path: "other.v1", Alias: "oth"}}},
+	} {
+		f := &jFile{Path: "iso/v1/cell.j5s", Pkg: "iso.v1", Imports: form.imports, Elems: []*jElem{
+			objDecl("Shared", fld("localOnly", tScalar(kBool))),
+			enumDecl("Level", "NEAR", "FAR"),
+			objDecl("Holder",
+				fld("theirs", tRef(kObject, form.ref, "other.v1.Shared")),
+				fld("ours", tRef(kObject, "Shared", "iso.v1.Shared")),
+				fld("theirList", tArr(tRef(kObject, form.ref, "other.v1.Shared"))),
+				fld("theirLevel", tRef(kEnum, form.enumRef, "other.v1.Level")),
+				fld("ourLevel", tRef(kEnum, "Level", "iso.v1.Level")),
+				fld("theirLevels", tMap(tRef(kEnum, form.enumRef, "other.v1.Level")))),
+		}}
+		add("import-same-name/"+form.id, &jBundle{Files: []*jFile{f, other()}})
+	}
 	// same package, two files
 	add("multi-file/one-way", &jBundle{Files: []*jFile{
 		{Path: "iso/v1/a.j5s", Pkg: "iso.v1", Elems: []*jElem{objDecl("Alpha", fld("beta", tRef(kObject, "Beta", "iso.v1.Beta")))}},
